@@ -23,6 +23,7 @@ new_hint <be> <sw> <b> <m> <vt> <hint>     the constructors with Some(hint) expe
                                            only: the model ignores it)             -> ok | panic
 is_empty                                   SigStore::is_empty                      -> ok 0|1
 temp_dir                                   SigStore::temp_dir().is_some()          -> ok some|none
+into_iter_held <k>                         into_iter() while k handles of a borrowed pass are alive -> ok [..]…
 into_iter_take <k>                         first k shards of into_iter() (sorted), size_hint of the
                                            rest, iterator dropped (store gone)     -> ok <rest> [..]…
 svops <sw> <vt> <sigA> <valA> <sigB> <valB>   stateless: `SigVal` `==` (signature only), `^`, and
@@ -227,6 +228,15 @@ def step (r : RSt) (toks : List String) : RSt × String :=
     | .shard st =>
       ({ r with stage := .dead }, outStr (collect st.intoIter) (fun x => s!"ok {fmtShards (x.1.map canon)}"))
     | _ => wrong
+  | ["into_iter_held", k] =>
+    -- the caller keeps k shard handles of a borrowed pass alive: shards are values, nothing changes
+    match parseNat k with
+    | some _ =>
+      match r.stage with
+      | .shard st =>
+        ({ r with stage := .dead }, outStr (collect st.intoIter) (fun x => s!"ok {fmtShards (x.1.map canon)}"))
+      | _ => wrong
+    | none => bad
   | ["into_iter_raw"] =>
     match r.stage with
     | .shard st =>
